@@ -70,6 +70,13 @@ func runC07(c *core.Ctx) {
 		exhaustiveTree(c, p.label, p.mk, p.k, 400000, func(m *KVMon[int, int]) { m.Balance = true }, nil)
 		return
 	}
+	if h := c.Index - len(exhaustivePlans(c.Tier)); h >= 0 && h < hugeCases {
+		if h%len(hugeKinds) >= 3 {
+			return // TreeMap and TreeBidiMap carry no bound of their own
+		}
+		runHugeTree(c, h, hugeN(c.Tier), func(m *KVMon[int, int]) { m.Balance = true })
+		return
+	}
 	runBalanceCase(c, balKinds[c.Index%len(balKinds)])
 }
 
